@@ -159,7 +159,8 @@ def cases(tier):
     for unit in UNITS:
         for which in ("start", "end"):
             weeks = WEEKS if (unit == "week" and tier != "quick") else ([(0, 6), (6, 5)] if unit == "week" else [(0, 6)])
-            zone_weeks = [(0, 6)]          # thorough: weeks with a zone for the default configuration only (each case runs > 8 min)
+            zone_weeks = []                # weeks with a named zone: every day step multiplies the zone branches (> 35 min per case,
+                                           # measured); the zone behaviour is decided on the day unit, weeks on utc/fixed/naive
             for ws, we in weeks:
                 wk = f" week {ws}-{we}" if unit == "week" else ""
                 kinds = ("zone", "utc", "fixed", "naive")
